@@ -1130,6 +1130,16 @@ class Engine:
                 else:
                     out.append((st1, V('cdict', py={k.value: v for k, v in zip(e.keys, vs)})))
             return out
+        if all(k is not None for k in e.keys):
+            # {key: value, ...} with computed keys: a display value that only ghost callees and hooks can take apart
+            n = len(e.keys)
+            out = []
+            for st1, vs in self.eval_seq(list(e.keys) + list(e.values), st):
+                if isinstance(vs, Raised):
+                    out.append((st1, vs))
+                else:
+                    out.append((st1, V('dict', items=list(zip(vs[:n], vs[n:])))))
+            return out
         raise Unsupported(e, 'dict literal')
 
     def ex_JoinedStr(self, e, st):
